@@ -21,6 +21,8 @@ def describe(case, row):
     else:
         kind = "mismatch"
     alg = case["alg"] if ("key" in call or "serialize" in call and kind in ("abort", "mismatch")) else "any"
+    if "serialize" in call and kind in ("abort", "mismatch") and case.get("balg", "ed") != "ed":
+        alg += "+block:" + case["balg"]
     return ":%s:%s:%s" % (kind, call, alg)
 
 
@@ -50,7 +52,7 @@ def run(tier, seed):
                 f.write(json.dumps(r) + "\n")
     ac.replay(ctx, res.exports["CAPI"], cmd="capi-replay", sig_prefix="replay:capi", describe=describe)
     return ctx.finish(
-        rule="CApi.tla: handle table + error channel; after a fixed setup (2-block token and keys of the scenario's algorithm) every call of a 32-call menu (serialize / "
+        rule="CApi.tla: handle table + error channel; after a fixed setup (2-block token: root key of the scenario's algorithm, block key of the scenario's block algorithm) every call of a 32-call menu (serialize / "
              "serialize_sealed with size query, block_count, block_context and print_block_source with every index in 0..n+1, print, authorize, key pair and public key round "
              "trips, from_bytes, append_block, authorizer creation, builder_build; each with a live and a null handle), singly and in pairs (error-channel persistence), for both "
              "signature algorithms. Invariants ErrorChannelSound, Total. Each scenario runs in a child process calling the real extern \"C\" functions: outcome class, error kind, "
